@@ -65,18 +65,19 @@ ENCODED = [
 _DEPTH = pick(2, 3)
 _L = pick(2, 3)  # symbolic str length bound
 BOUNDS = (
-    "dataclass shapes generated from {int,bool,str,Enum(value!=name),Optional,list,frozenset,dict[str,.],"
-    "nested dataclass,defaults,Transient} to nesting depth %d (quick: fixed selection of 25; thorough: all, %s); "
+    "dataclass shapes generated from {int,bool,str,Enum(value!=name),Optional (field and element position),list,"
+    "frozenset,dict[K,.] with K in {str,int,Enum},"
+    "nested dataclass,defaults,Transient} to nesting depth %d (quick: fixed selection of 35; thorough: all, %s); "
     "instances: unbounded ints, any bool, any str of len<=%d, any enum member (3), container lengths 0..2, "
     "None in every Optional position; map keys: a top-level map of scalars/enums has two independent symbolic "
     "keys, any other map has the constant keys 'k0','k1'; depth-3 shapes: the outermost container "
-    "holds at most one element" % (_DEPTH, "incl. Enum-keyed maps", _L)
+    "holds at most one element" % (_DEPTH, "int keys only over int-leaved values", _L)
 )
 OUTSIDE = (
     "Arrow's own value fidelity (int64 range, IPC framing) — only the Python conversion layer is symbolic; "
     "pa.Schema / pa.RecordBatch / bytes / float fields; Annotated[..., ArrowType] overrides; containers longer than 2; "
     "the real msgpack C codec (modelled as an ideal codec stub; not installed in this environment); "
-    "_state_token union envelope; dict keys other than str in the quick tier"
+    "_state_token union envelope; map keys other than str/int/Enum (bool, dataclass or set keys)"
 )
 ASSUMPTIONS = [
     "Arrow contract: pa.array([row_value], type=T)[0].as_py() == arrow_normal_form(row_value, T) for the types "
@@ -498,38 +499,68 @@ def _make_shapes() -> None:
     _single(O(L(INT)), True)
     _single(O(D(INT)), True)
     _single(O(F(STR)), False)
-    # depth 1
+    # depth 1.  Maps have a *key-type dimension* K in {str, int, Enum}: the conversion layer converts keys
+    # as well as values (both directions), so every value kind is generated under every key kind.
     base0 = [INT, STR, ENUM]
+    keys = [STR, INT, ENUM]
     level1: list[tuple] = []
-    for c in (L, F, D):
+    for c in (L, F):
         for x in base0:
             level1.append(c(x))
+    for x in base0:
+        level1.append(D(x))
     for e in level1:
         _single(e, quick=(e[-1] != STR or e[0] == "list"))
+    keyed1 = [D(x, k) for k in (INT, ENUM) for x in base0]
+    for e in keyed1:
+        # quick: dict[Color,int], dict[Color,Color], dict[int,str]
+        _single(e, quick=(e[1] == ENUM and e[2] != STR) or (e[1] == INT and e[2] == STR))
     _single(LEAF, True)
     _single(O(LEAF), False)
-    level1.append(LEAF)
+    # Optional in element position (Arrow: nullable list items / map values)
+    _single(L(O(ENUM)), True)
+    _single(D(O(LEAF)), True)
+    _single(L(O(LEAF)), False)
+    _single(D(O(ENUM), ENUM), False)
+    _single(F(O(INT)), False)
+    nest1 = level1 + [D(INT, ENUM), LEAF]  # what gets nested further (one non-str-keyed map is enough there)
     # depth 2
     level2: list[tuple] = []
-    for c in (L, F, D):
-        for x in level1:
+    for c in (L, F):
+        for x in nest1:
             if c is F and not _hashable(x):
                 continue
             level2.append(c(x))
+    for x in nest1:
+        for k in keys:
+            if k == INT and x[-1] != INT and x != LEAF:
+                continue  # int keys: only over int-leaved values and Leaf (keeps the thorough tier affordable)
+            level2.append(D(x, k))
     for e in level2:
         inner = e[-1]
-        q = inner == LEAF or inner[-1] == INT
+        int_leaved = inner == LEAF or inner[-1] == INT
+        if e[0] == "dict":
+            # quick: every str-keyed int-leaved map as before, plus enum-keyed maps of Leaf / list[int] / dict[str,int]
+            q = int_leaved and (e[1] == STR or (e[1] == ENUM and inner in (LEAF, L(INT), D(INT))))
+        else:
+            q = int_leaved
         _single(e, quick=q)
     _single(MID, True)
-    level2.append(MID)
-    _single(D(INT, ENUM), False)  # enum-keyed map
+    nest2 = [e for e in level2 if e[0] != "dict" or e[1] != INT] + [MID]
     if _DEPTH >= 3:
-        for c in (L, F, D):
-            for x in level2:
+        for c in (L, F):
+            for x in nest2:
                 if c is F and not _hashable(x):
                     continue
                 _single(c(x), False)
-        top = _define("Top", [("mid", MID), ("ms", L(MID)), ("d", D(LEAF))])
+        for x in nest2:
+            _single(D(x), False)
+            innermost = x
+            while innermost[0] in ("list", "fset", "dict", "opt"):
+                innermost = innermost[-1]
+            if innermost in (INT, LEAF):
+                _single(D(x, ENUM), False)
+        top = _define("Top", [("mid", MID), ("ms", L(MID)), ("d", D(LEAF)), ("by_color", D(L(LEAF), ENUM))])
         _single(top, False)
 
 
